@@ -8,7 +8,10 @@ PROP = dict(
                  "apply_only": ("apply_only_run", "Z.eqb", "apply_in * Z")}},
     suites=[{"bin": "c05", "name": "election", "n": {"quick": 400, "thorough": 6000}, "timeout": 600},
             {"bin": "c05", "name": "momentum", "n": {"quick": 12, "thorough": 150}, "timeout": 1200},
-            {"bin": "c05", "name": "schedule", "n": {"quick": 5, "thorough": 60}, "timeout": 1200}],
+            {"bin": "c05", "name": "schedule", "n": {"quick": 5, "thorough": 60}, "timeout": 1200},
+            {"bin": "c05", "name": "concurrent", "n": {"quick": 4, "thorough": 40}, "timeout": 1200},
+            {"bin": "c05", "name": "produce", "n": {"quick": 8, "thorough": 100}, "timeout": 1200},
+            {"bin": "c05", "name": "concurrent-race", "n": {"quick": 1, "thorough": 6}, "timeout": 1800}],
     rule="election: NodeCount in 1..40 (and the production 30/15), RandCount in 0..NodeCount, 1..60 pillars (also exactly NodeCount, NodeCount+-1, 1..3), "
          "weights all equal / many ties and zeros / beyond 64 bits / distinct, names that are prefixes of one another or carry bytes >= 0x80, proof heights from uint64 boundary classes "
          "(2^63-1: seed+1 wraps), through consensus.NewElectionAlgorithm().SelectProducers with the observed rand.Perm tables handed to the model; "
@@ -17,11 +20,23 @@ PROP = dict(
          "changes hash, content and prefetched blocks added / dropped / duplicated / reversed / 101 headers, surplus prefetched blocks (made-up user block, contract send, a linked block of a named account, a named block twice), public key, signature), the same momentum signed or fully produced by each non-elected pillar and by a user, "
          "and correctly produced momentums on a stale parent, through Supervisor.ApplyMomentum + AddMomentumTransaction; error mapped by sentinel identity; "
          "schedule: GetMomentumProducer for every slot from before genesis to two ticks past the frontier (and off-grid instants) on the live (half of the runs: reorganised by 1..30) node, "
-         "on a second node fed the chain through ChainBridge.InsertChain and on that node after a restart; a case is distinct by (function, input)",
+         "on a second node fed the chain through ChainBridge.InsertChain and on that node after a restart; "
+         "concurrent: histories with (nearly) one momentum per tick (30..60 distinct proof momentums); a node with COLD caches (no LRU, consensus DB deleted) is asked for the elections of all ticks by 2..16 goroutines at once "
+         "(rotated / shuffled / descending orders, through ElectionByTick and through GetMomentumProducer), in half of the runs next to a writer goroutine that delivers the rest of the chain through ChainBridge.InsertChain "
+         "(momentum verification and the insert listeners ask elections of later ticks); every answer is compared with a second cold node asked one tick at a time, with the harness' reference election and (producer / election cases) with the model, "
+         "then the node is asked again in the same process (LRU) and after a restart (consensus DB); one election algorithm object (as electionManager.algo) is asked for 16..64 random configurations by 2..16 goroutines and compared with a fresh object per election; "
+         "the same family once in a build with the race detector (reports with a frame of the node's code counted); "
+         "produce: at many points of a history (several momentums per tick, gaps, (un)delegations) each registered pillar's key, a pillar key without registration and a user key try to PRODUCE the momentum of a slot ahead of the frontier "
+         "(next slot, later slots, other ticks, instants inside a slot): directly through the real Supervisor.GenerateMomentum and through a real pillar manager (pillar.NewPillar, SetCoinBase, Process(event) -> worker -> GenerateMomentum -> Broadcaster.CreateMomentum), "
+         "with fresh events and with STALE events (computed by ElectionByTick for the coming ticks, then late momentums of the tick before / a reorganisation by 1..12 replace the proof momentum before the event is acted on); "
+         "a case is distinct by (function, input)",
     explanation="Theorems: an accepted momentum extends the frontier, is strictly later and at most 10 s ahead, its hash/changes-hash commit to content and executed changes, its signature verifies and its signer is the pillar "
                 "the election assigns to its slot (any other signer is rejected), and it is presented with exactly the account blocks its content names (as many distinct blocks as headers, every header names one, per-address linking; also evaluated directly on every momentum the real verifier accepts); for every configuration with at least one pillar and every permutation oracle the election returns exactly NodeCount registered pillars "
                 "(no panic, fill-up loop terminates) and depends only on the set of delegations (sorting by (weight desc, name) is canonical); the slot lookup hits exactly slot (ts-start)/BlockTime; "
                 "the election cache keyed by proof hash answers like recomputation through any sequence of queries, evictions and rollbacks. "
+                "Oracles on the implementation beyond the theorems' reach (runtime statements): concurrent-election-equals-sequential / cached-election-equals-fresh (the list a node derives does not depend on what its other goroutines "
+                "were electing at the same moment, and what it stored under the proof hash is the fresh answer), no-data-race-between-concurrent-elections, and own-momentum-only-when-elected (the node's own production path hands out / inserts "
+                "a momentum iff its key is the elected producer of that slot on the current chain, also for stale producer events). "
                 "Modelled: SortPDByWeight.Less, ComputePillarDelegations, filterByWeight/filterRandom/shuffleOrder incl. fill-up loop and index panics, findSeed (int64 wrap), ticker.ToTick, genProofTime, "
                 "GetMomentumBeforeTime (as its specification), generateProducers slot times, GetMomentumProducer, election cache; getContext, rawMomentumVerifier (all six checks incl. content/prefetch linking), "
                 "momentumTransactionVerifier (changes hash, hash, signature, producer), recover in ApplyMomentum, parent check of ldbManager.Add.",
